@@ -13,6 +13,12 @@ import warnings
 
 warnings.simplefilter("ignore")
 
+if os.environ.get("PYTHONHASHSEED") != "0":
+    # reproducible runs: the iteration order of the analyser's sets of strings (and with it the order in which paths are
+    # explored and costs are measured) must not change from one run to the next
+    os.environ["PYTHONHASHSEED"] = "0"
+    os.execv(sys.executable, [sys.executable, "-m", "sa"] + sys.argv[1:])
+
 from .loader import AnalysisError
 from . import report
 
